@@ -48,6 +48,10 @@ type replicator struct {
 
 	tasks map[cid.Cid]queuedState
 
+	// hashes whose fetch was abandoned (request cancelled, fetch failed);
+	// they are queued again by the next Load
+	missing map[cid.Cid]struct{}
+
 	sem       *semaphore.Weighted
 	queue     *processQueue
 	muProcess sync.RWMutex
@@ -94,6 +98,7 @@ func NewReplicator(store storeInterface, concurrency uint, opts *Options) (Repli
 		concurrency: int64(concurrency),
 		store:       store,
 		tasks:       make(map[cid.Cid]queuedState),
+		missing:     make(map[cid.Cid]struct{}),
 		queue:       &processQueue{},
 		logger:      opts.Logger,
 		tracer:      opts.Tracer,
@@ -170,8 +175,29 @@ func (r *replicator) Load(ctx context.Context, entries []ipfslog.Entry) {
 
 	// process and wait the whole queue to complete
 	r.muProcess.Lock()
+
+	// retry what earlier requests had to abandon
+	for hash := range r.missing {
+		delete(r.missing, hash)
+
+		item, exist := r.addHashToQueue(hash)
+		if exist {
+			continue
+		}
+
+		wg.Add(1)
+		go func() {
+			if err := r.processOne(ctx, &wg, item); err != nil {
+				r.logger.Warn("unable to process entry", zap.Error(err))
+			}
+
+			wg.Done()
+		}()
+	}
+
 	for i, entry := range entries {
-		if exist := r.AddEntryToQueue(entry); exist {
+		item, exist := r.addEntryToQueue(entry)
+		if exist {
 			continue
 		}
 
@@ -185,7 +211,7 @@ func (r *replicator) Load(ctx context.Context, entries []ipfslog.Entry) {
 
 		// add one process
 		go func(_ int) {
-			if err := r.processOne(ctx, &wg); err != nil {
+			if err := r.processOne(ctx, &wg, item); err != nil {
 				r.logger.Warn("unable to process entry", zap.Error(err))
 			}
 
@@ -197,20 +223,23 @@ func (r *replicator) Load(ctx context.Context, entries []ipfslog.Entry) {
 	wg.Wait()
 }
 
-// processOne wait for a process slot then process one element of the queue
-func (r *replicator) processOne(ctx context.Context, wg *sync.WaitGroup) error {
+// processOne wait for a process slot then process the given element of the queue
+func (r *replicator) processOne(ctx context.Context, wg *sync.WaitGroup, e processItem) error {
 	// wait for a process slot
-	e, err := r.waitForProcessSlot(ctx)
-	if err != nil {
+	if err := r.waitForProcessSlot(ctx, e); err != nil {
+		// the request was cancelled before this item could be fetched:
+		// forget it, so that a later request can ask for it again
+		r.abandon(e)
 		return err
 	}
 
-	if err := r.processItems(ctx, wg, e); err != nil {
+	err := r.processItems(ctx, wg, e)
+	if err != nil {
 		r.logger.Warn("process item ended", zap.Error(err))
 	}
 
 	// mark this process has done
-	r.processEntryDone(e)
+	r.processEntryDone(e, err == nil)
 	return nil
 }
 
@@ -225,7 +254,8 @@ func (r *replicator) processItems(ctx context.Context, wg *sync.WaitGroup, items
 
 		r.muProcess.Lock()
 		for _, hash := range next {
-			if exist := r.AddHashToQueue(hash); exist {
+			item, exist := r.addHashToQueue(hash)
+			if exist {
 				continue
 			}
 
@@ -233,7 +263,7 @@ func (r *replicator) processItems(ctx context.Context, wg *sync.WaitGroup, items
 
 			// add process
 			go func() {
-				if err := r.processOne(ctx, wg); err != nil {
+				if err := r.processOne(ctx, wg, item); err != nil {
 					r.logger.Warn("unable to process entry", zap.Error(err))
 				}
 
@@ -289,6 +319,17 @@ func (r *replicator) processHash(ctx context.Context, item processItem) ([]cid.C
 		return nil, fmt.Errorf("unable to fetch log: %w", err)
 	}
 
+	// the fetcher swallows errors: a cancelled or failed fetch yields an empty log
+	if l.GetEntries().Len() == 0 {
+		if _, inLog := r.store.OpLog().Get(hash); !inLog {
+			if err := ctx.Err(); err != nil {
+				return nil, fmt.Errorf("unable to fetch entry %s: %w", hash, err)
+			}
+
+			return nil, fmt.Errorf("unable to fetch entry %s", hash)
+		}
+	}
+
 	r.muBuffer.Lock()
 	r.buffer = append(r.buffer, l)
 	r.muBuffer.Unlock()
@@ -324,31 +365,53 @@ func (r *replicator) generateEmitter(bus event.Bus) error {
 	return nil
 }
 
-func (r *replicator) waitForProcessSlot(ctx context.Context) (e processItem, err error) {
+func (r *replicator) waitForProcessSlot(ctx context.Context, e processItem) error {
 	verifhook.Point("repl.before-slot", r, ctx)
 	if err := r.sem.Acquire(ctx, 1); err != nil {
-		return nil, fmt.Errorf("failed to acquire process slot: %w", err)
+		return fmt.Errorf("failed to acquire process slot: %w", err)
 	}
 	r.muProcess.Lock()
 
 	r.taskInProgress++
 
-	e = r.queue.Next()
+	r.queue.Remove(e)
 	r.tasks[e.GetHash()] = stateFetching
 
 	r.muProcess.Unlock()
 	verifhook.Point("repl.after-dequeue", r, ctx, e.GetHash())
-	return
+	return nil
 }
 
-func (r *replicator) processEntryDone(item processItem) {
+// abandon forgets an item that will not be processed by the current request
+func (r *replicator) abandon(item processItem) {
+	r.muProcess.Lock()
+
+	r.queue.Remove(item)
+	delete(r.tasks, item.GetHash())
+	r.missing[item.GetHash()] = struct{}{}
+
+	// this item may have been the last thing a pending load was waiting for
+	if r.isIdle() {
+		r.idle()
+	}
+
+	r.muProcess.Unlock()
+}
+
+func (r *replicator) processEntryDone(item processItem, fetched bool) {
 	verifhook.Point("repl.before-done", r, item.GetHash())
 	r.muProcess.Lock()
 
 	r.taskInProgress--
 
-	// remove hash from queued list
-	r.tasks[item.GetHash()] = stateFetched
+	if fetched {
+		// remove hash from queued list
+		r.tasks[item.GetHash()] = stateFetched
+	} else {
+		// not fetched: a later request must be able to ask for it again
+		delete(r.tasks, item.GetHash())
+		r.missing[item.GetHash()] = struct{}{}
+	}
 
 	// if there no more task to proceed, trigger idle method
 	if r.isIdle() {
@@ -378,13 +441,18 @@ func (r *replicator) shouldExclude(hash cid.Cid) (exist bool) {
 
 // AddHashToQueue is not thread safe
 func (r *replicator) AddHashToQueue(hash cid.Cid) (exist bool) {
+	_, exist = r.addHashToQueue(hash)
+	return
+}
+
+func (r *replicator) addHashToQueue(hash cid.Cid) (item processItem, exist bool) {
 	_, inLog := r.store.OpLog().Get(hash)
 	_, queued := r.tasks[hash]
 	if exist = queued || inLog; exist {
 		return
 	}
 
-	item := newProcessHash(hash)
+	item = newProcessHash(hash)
 	r.queue.Add(item)
 	r.tasks[hash] = stateAdded
 	return
@@ -392,6 +460,11 @@ func (r *replicator) AddHashToQueue(hash cid.Cid) (exist bool) {
 
 // AddEntryToQueue is not thread safe
 func (r *replicator) AddEntryToQueue(entry iface.IPFSLogEntry) (exist bool) {
+	_, exist = r.addEntryToQueue(entry)
+	return
+}
+
+func (r *replicator) addEntryToQueue(entry iface.IPFSLogEntry) (item processItem, exist bool) {
 	hash := entry.GetHash()
 	_, inLog := r.store.OpLog().Get(hash)
 	_, queued := r.tasks[hash]
@@ -399,7 +472,7 @@ func (r *replicator) AddEntryToQueue(entry iface.IPFSLogEntry) (exist bool) {
 		return
 	}
 
-	item := newProcessEntry(entry)
+	item = newProcessEntry(entry)
 	r.queue.Add(item)
 	r.tasks[hash] = stateAdded
 	return
